@@ -601,6 +601,10 @@ def init_dataclass(
     detector=lambda cls: isinstance(getattr(cls, "__parser__", None), ClassParser),
 )
 def transform_dataclass(transformer: TypeTransformer, data, cls):
+    if transformer.options.no_explicit_cast and not isinstance(data, (Mapping, cls)):
+        # the data class parses with its own options: check the caller's preference here,
+        # otherwise a list of pairs is accepted under no_explicit_cast but not without it
+        raise TypeError(f"invalid input type for {cls}, should be dict or Mapping")
     if isinstance(data, (list, tuple)) and not transformer.options.no_explicit_cast:
         if data:
             if transformer.options.no_data_loss and len(data) > 1:
